@@ -726,7 +726,9 @@ class ScaledArrayView(ArrayView):
         return (value * np.asarray(self.scale, dtype=np.float64)) + self.offset
 
     def _remove_scale(self, value):
-        return np.round((value - self.offset) / self.scale)
+        # an offset given as a Python int would keep the difference in the (possibly
+        # 8 or 16 bit, unsigned) type of the given values
+        return np.round((value - np.asarray(self.offset, dtype=np.float64)) / self.scale)
 
     def max(self, *args, **kwargs):
         if self.array.ndim > 1:
